@@ -364,10 +364,10 @@ func (c *Check) withdrawSite(fn *ssa.Function, send *ssa.Call) {
 	}
 	obj := fn.Params[len(fn.Params)-1]
 	amt := coinsArgElem(args[3])
-	balExpr := "*p:" + obj.Name() + ".Balance"
+	balExpr := "*p:" + paramName(obj) + ".Balance"
 	c.Ob("R2", inst+": amount sent == recorded balance", send.Pos(), amt != nil && Sym(amt) == balExpr, "amount sent is not exactly the record's Balance: "+Sym(args[3]))
 	c.Ob("R2", inst+": recipient == recorded owner", send.Pos(),
-		Sym(args[2]) == "types.AccAddressFromBech32(*p:"+obj.Name()+".Owner)#0", "recipient "+Sym(args[2])+" is not the record's Owner")
+		Sym(args[2]) == "types.AccAddressFromBech32(*p:"+paramName(obj)+".Owner)#0", "recipient "+Sym(args[2])+" is not the record's Owner")
 	// no store to obj.Balance between entry and the send (so the loaded value is the recorded one)
 	var zeroStore *ssa.Store
 	var persist ssa.Instruction
@@ -407,8 +407,8 @@ func (c *Check) withdrawSite(fn *ssa.Function, send *ssa.Call) {
 	if strings.HasSuffix(obj.Type().String(), "types.Payment") {
 		ok := false
 		eachInstr(fn, func(i ssa.Instruction) {
-			if st, isSt := i.(*ssa.Store); isSt && Sym(st.Addr) == "&*p:"+obj.Name()+".Withdrawn" {
-				if Sym(st.Val) == "types.Coin.Add(*p:"+obj.Name()+".Withdrawn, "+balExpr+")" && zeroStore != nil && instrDominates(st, zeroStore) && okEdgeAt(st.Block(), send) {
+			if st, isSt := i.(*ssa.Store); isSt && Sym(st.Addr) == "&*p:"+paramName(obj)+".Withdrawn" {
+				if Sym(st.Val) == "types.Coin.Add(*p:"+paramName(obj)+".Withdrawn, "+balExpr+")" && zeroStore != nil && instrDominates(st, zeroStore) && okEdgeAt(st.Block(), send) {
 					ok = true
 				}
 			}
